@@ -78,3 +78,15 @@ Definition chk_pinned (ob : obs) : nat :=
   match t_step_pinned (to_tstate pre) o with
   | Some t' => if tstate_eqb t' (to_tstate post) then 0%nat else 9%nat
   | None => 9%nat end.
+
+(* validation of the pinned vault model at Row level (set only): 0 = XML runs and _rmap reproduced exactly *)
+Definition chk_row_pinned (pre : rruns) (o : rop) (post : rruns) (postmap : list Z) : nat :=
+  match o with
+  | RSet x c =>
+      let x' := norm_coord x (rwidth pre) in
+      if x' <? rwidth pre then
+        match set_item_pinned 0 x' c pre (cmap pre), set_map_pinned x' (fst c) (cmap pre) with
+        | Some v, Some m => if runs_eqb v post && zl_eqb m postmap then 0%nat else 9%nat
+        | _, _ => 9%nat end
+      else 0%nat
+  | _ => 0%nat end.
